@@ -65,6 +65,26 @@ def store_stats(pid):
     return c
 
 
+def replay_calc_pfactor(obligation, model, meta):
+    """native run of the real EIG.calc_pfactor on a stub: every mode's participation factors are non-negative and sum to one"""
+    from types import SimpleNamespace
+    import numpy as np
+    from andes.routines.eig import EIG
+    rng = np.random.default_rng(7)
+    for n in (2, 3, 5):
+        As = rng.normal(size=(n, n))
+        stub = SimpleNamespace(As=As, calc_eig=lambda As_=None, As0=As: np.linalg.eig(As0 if As_ is None else As_))
+        ret = EIG.calc_pfactor(stub, As)
+        pf = ret[1]
+        pf = np.asarray(pf)
+        modes_axis_sums = pf.sum(axis=1)
+        if pf.shape != (n, n) or np.any(pf < 0) or not np.allclose(modes_axis_sums, 1.0, atol=1e-4):
+            return {'confirmed': True, 'inputs': {'As': As.tolist()},
+                    'observed': 'per-mode sums of the participation factors %r (expected all 1)' % np.round(modes_axis_sums, 4).tolist(),
+                    'native_cmd': 'EIG.calc_pfactor(stub, As)'}
+    return {'confirmed': False, 'tried': 3}
+
+
 def replay_store_stats(obligation, model, meta):
     """native run of the real EIG._store_stats on a stub: the three counts partition the spectrum by the sign of the real part"""
     from types import SimpleNamespace
